@@ -335,21 +335,38 @@ TargetPos(t, op) ==
 Targeted(t, op) == {t.rows[p[1]][p[2]].tok : p \in TargetPos(t, op)}
 
 \* ---- the relation of C09 on one observed step (witness classes) -------------
+\* token -> set of positions, computed once per table
+TokAt(t, p) == t.rows[p[1]][p[2]].tok
+OccMap(t) == LET P == Pos(t)
+                 T == {TokAt(t, p) : p \in P} \ {0}
+             IN [k \in T |-> {p \in P : TokAt(t, p) = k}]
 Viol_Preserved(b, a, op) ==
-  LET K  == {k \in TokSet(b) \ Targeted(b, op) : Cardinality(Occ(b, k)) = 1}
-      Ka == {k \in K : Cardinality(Occ(a, k)) = 1}
-  IN  (IF \E k \in K : Occ(a, k) = {} THEN {"lost-content"} ELSE {})
-      \cup (IF \E k \in Ka : TheCell(a, k).np # TheCell(b, k).np \/ TheCell(a, k).nn # TheCell(b, k).nn
+  LET mb == OccMap(b)
+      ma == OccMap(a)
+      tb == Targeted(b, op)
+      K  == {k \in (DOMAIN mb) \ tb : Cardinality(mb[k]) = 1}
+      Ka == {k \in K : k \in DOMAIN ma /\ Cardinality(ma[k]) = 1}
+      PB == [k \in Ka |-> CHOOSE p \in mb[k] : TRUE]
+      PA == [k \in Ka |-> CHOOSE p \in ma[k] : TRUE]
+      nw == NewToks(op)
+  IN  (IF \E k \in K : k \notin DOMAIN ma THEN {"lost-content"} ELSE {})
+      \cup (IF \E k \in Ka : LET cb == b.rows[PB[k][1]][PB[k][2]]
+                                  ca == a.rows[PA[k][1]][PA[k][2]]
+                              IN ca.np # cb.np \/ ca.nn # cb.nn
             THEN {"lost-content"} ELSE {})
-      \cup (IF \E k \in TokSet(a) : Cardinality(Occ(a, k)) > 1 /\ Cardinality(Occ(b, k)) <= 1
+      \cup (IF \E k \in DOMAIN ma : Cardinality(ma[k]) > 1 /\ (k \notin DOMAIN mb \/ Cardinality(mb[k]) <= 1)
             THEN {"dup-content"} ELSE {})
-      \cup (IF \E k \in TokSet(a) : k \notin TokSet(b) /\ k \notin NewToks(op) THEN {"dup-content"} ELSE {})
+      \cup (IF \E k \in DOMAIN ma : k \notin DOMAIN mb /\ k \notin nw THEN {"dup-content"} ELSE {})
       \cup (IF \E k1, k2 \in Ka :
-                 LET p1 == ThePos(b, k1)  p2 == ThePos(b, k2)
-                     q1 == ThePos(a, k1)  q2 == ThePos(a, k2)
-                 IN \/ (p1[1] = p2[1] /\ p1[2] < p2[2] /\ ~(q1[1] = q2[1] /\ q1[2] < q2[2]))
-                    \/ (p1[1] < p2[1] /\ ~(q1[1] < q2[1]))
+                 \/ (PB[k1][1] = PB[k2][1] /\ PB[k1][2] < PB[k2][2]
+                       /\ ~(PA[k1][1] = PA[k2][1] /\ PA[k1][2] < PA[k2][2]))
+                 \/ (PB[k1][1] < PB[k2][1] /\ ~(PA[k1][1] < PA[k2][1]))
             THEN {"wrong-place"} ELSE {})
+
+\* ill-formedness the step introduced: a class the table did not already show before the call
+\* ("ragged" and "grid-mismatch" are one family: rows that disagree with the declared grid)
+GridFam == {"ragged", "grid-mismatch"}
+NewWFV(b, a) == LET wb == WFV(b) IN WFV(a) \ (wb \cup (IF wb \cap GridFam # {} THEN GridFam ELSE {}))
 
 \* comparison with the plain rows-by-columns model where it is unambiguous
 Viol_Plain(b, a, op) ==
@@ -360,7 +377,7 @@ Viol_Step(b, op, ret, a) ==
   IF op.op = "Start" THEN {}
   ELSE IF ret = "panic" THEN {"panic"}
   ELSE IF ret = "err" THEN (IF a # b THEN {"changed-on-error"} ELSE {})
-  ELSE LET rel == (WFV(a) \ WFV(b)) \cup Viol_Preserved(b, a, op)
+  ELSE LET rel == NewWFV(b, a) \cup Viol_Preserved(b, a, op)
        IN IF rel # {} THEN rel ELSE Viol_Plain(b, a, op)
 
 \* ---- read-only operations -------------------------------------------------------
